@@ -154,16 +154,12 @@ func c17Run(raw json.RawMessage) (res Result, err error) {
 	}
 	res.Holds = true
 	inDom := true
-	reserved := false
 	nMut := 0
 	var root string
 	obs, coqOps, coqObs, err := catRunHook(in.Ops, true, func(inst *catinst.Inst, i int, op CatOp, o *catStepObs) {
 		root = inst.Root
 		if op.Op != "restart" {
 			inDom = inDom && c17GoodKey(op.Key)
-			if strings.Contains(op.Key, "metadata.db") {
-				reserved = true
-			}
 		}
 		if o.Code == 0 && (op.Op == "create" || op.Op == "write" || op.Op == "destroy") {
 			nMut++
@@ -175,9 +171,6 @@ func c17Run(raw json.RawMessage) (res Result, err error) {
 		fail := func(what string) {
 			res.Holds = false
 			res.Detail = fmt.Sprintf("after op %d (%s %q): %s", i, op.Op, op.Key, what)
-			if reserved {
-				res.Class = "reserved-name-metadata-db"
-			}
 		}
 		if fmt.Sprint(o.TBK) != fmt.Sprint(dt) {
 			fail(fmt.Sprintf("catalog lists buckets %v, the disk has %v", o.TBK, dt))
